@@ -90,14 +90,14 @@ Proof. exact sqrt_narrow_correct. Qed.
 Print Assumptions C27_sqrt_correct.
 
 (* U128::pow: base^exponent when it fits, otherwise a revert (revert(0) or the VM overflow panic inside
-   u128_checked_mul); out-of-fuel excluded (the model runs it with fuel 40 >= 2 * 32 loop trips) *)
-Theorem C27_u128_pow_correct : forall fuel a e, wf a -> e < 2 ^ 32 ->
-  match u128_pow_fuel fuel default_flags a e with
+   u128_checked_mul).  `u128_pow` runs the loops with fuel 40, proved sufficient for every u32 exponent. *)
+Theorem C27_u128_pow_correct : forall a e, wf a -> e < 2 ^ 32 ->
+  match u128_pow default_flags a e with
   | Ret r => val a ^ e < 2 ^ 128 /\ r = split (val a ^ e)
   | Rev _ | Vmp _ => 2 ^ 128 <= val a ^ e
-  | Oof => True
+  | Oof => False
   end.
-Proof. exact u128_pow_fuel_correct. Qed.
+Proof. exact u128_pow_correct. Qed.
 Print Assumptions C27_u128_pow_correct.
 
 (* math.sw Power for u8/u16/u32/u64 (EXP + the `> Self::max()` check): a^e when it fits the width, else a
